@@ -7,6 +7,7 @@ CONSTANTS
   WCounts = {0, 2, 6}
   SOffs <- MC_SmallSOffs
   VBufs = {"no", "full"}
+  Extra <- MC_AllExtra
   Naive = TRUE
   Gen = FALSE
 VIEW genview
